@@ -5,6 +5,8 @@ import (
 	"fmt"
 	"os"
 	"runtime"
+	"strings"
+	"syscall"
 	"testing"
 	"time"
 
@@ -46,6 +48,7 @@ func TestWorker(t *testing.T) {
 	}
 	env.Tier = job.Tier
 	p.Prepare(job.Tier)
+	go watchdog(20)
 	switch job.Mode {
 	case "explore":
 		explore(p, &job)
@@ -67,6 +70,19 @@ func TestWorker(t *testing.T) {
 			outl = append(outl, tl{run, fmt.Sprintf("%016x", res.Trace), res.Steps, res.Tasks, res.Class, res.Infra})
 		}
 		writeJSON(job.Out, map[string]interface{}{"list": outl})
+	case "cands":
+		// shrink candidates of a plan, for the orchestrator-level reducer of
+		// process-death violations (race reports, runtime fatal errors)
+		plan, err := p.Decode(job.Plan)
+		if err != nil {
+			writeJSON(job.Out, map[string]interface{}{"infra": err.Error()})
+			return
+		}
+		var cs []json.RawMessage
+		for _, c := range p.Shrink(plan) {
+			cs = append(cs, mustJSON(c))
+		}
+		writeJSON(job.Out, map[string]interface{}{"cands": cs})
 	case "gen":
 		writeJSON(job.Out, map[string]interface{}{"plan": p.Gen(job.Seed, job.OnlyRun, job.Tier, job.Variant)})
 	case "shrink":
@@ -97,6 +113,62 @@ func isKnown(job *Job, class string) bool {
 		}
 	}
 	return false
+}
+
+// watchdog runs on a real goroutine outside every bubble. A simulation whose
+// tasks block in something the simulator does not control (a package-level
+// channel created outside the bubble, a mutex held across a scheduling point, a
+// system call) can never be declared deadlocked by the scheduler: synctest.Wait
+// simply does not return. If the scheduler makes no step for stallS seconds AND
+// the process burns no CPU in that window, everything is blocked for good:
+// print the marker (with all goroutine stacks) and exit with code 67. The
+// orchestrator turns that into a "blocked-forever" violation for the announced run.
+const blockedMarker = "VERIF-BLOCKED-FOREVER"
+
+func cpuSeconds() float64 {
+	var ru syscall.Rusage
+	syscall.Getrusage(syscall.RUSAGE_SELF, &ru)
+	return float64(ru.Utime.Sec+ru.Stime.Sec) + float64(ru.Utime.Usec+ru.Stime.Usec)/1e6
+}
+
+func watchdog(stallS float64) {
+	last := verifsim.Progress()
+	lastChange := time.Now()
+	cpuAt := cpuSeconds()
+	for {
+		time.Sleep(1 * time.Second)
+		now := verifsim.Progress()
+		if now != last || !verifsim.Active() {
+			last, lastChange, cpuAt = now, time.Now(), cpuSeconds()
+			continue
+		}
+		if time.Since(lastChange).Seconds() < stallS {
+			continue
+		}
+		if cpuSeconds()-cpuAt > 0.05*time.Since(lastChange).Seconds() {
+			// somebody is computing (a long task between two scheduling points): not blocked
+			lastChange, cpuAt = time.Now(), cpuSeconds()
+			continue
+		}
+		buf := make([]byte, 1<<20)
+		n := runtime.Stack(buf, true)
+		fmt.Fprintf(os.Stderr, "%s: no scheduler step and no CPU use for %.0f s: tasks are blocked in operations outside the simulator's control\n%s\n", blockedMarker, time.Since(lastChange).Seconds(), trimStacks(string(buf[:n])))
+		os.Exit(67)
+	}
+}
+
+// trimStacks keeps the goroutines that sit in library code.
+func trimStacks(s string) string {
+	out := ""
+	for _, g := range strings.Split(s, "\n\n") {
+		if strings.Contains(g, "go-ipa") && !strings.Contains(g, "verifsim.(*sim).park") && len(out) < 6000 {
+			out += g + "\n\n"
+		}
+	}
+	if out == "" {
+		return s[:minInt(len(s), 6000)]
+	}
+	return out
 }
 
 func explore(p Property, job *Job) {
